@@ -52,6 +52,31 @@ def check_case(c, V, stats):
         if bad:
             V.violation(bad[0], case, observed=bad[1], expected=bad[2], what="a combination of alternatives has no row of its own")
             continue
+        # the values of one cell stay apart: between the entries of two chosen leaves of one component there is a separator
+        # or shared text, never nothing (two different choices could otherwise print the same cell)
+        cores = spec.get("cores") or []
+        if len(cores) == len(choices) and not any(carries(row, ch) for row, ch in zip(own, choices)):
+            for row, ch, co in zip(own, choices, cores):
+                bycomp = {}
+                for (comp, text), core in zip(ch, co):
+                    if text is not None and core and core.strip() == core and core[:1].isalnum():
+                        bycomp.setdefault(comp, []).append(adjust_py(core, gs))
+                for comp, cs in bycomp.items():
+                    cell = row.get(comp, b"")
+                    pos = 0
+                    for a, b2 in zip(cs, cs[1:]):
+                        ia = cell.find(a, pos)
+                        if ia < 0:
+                            break
+                        ib = cell.find(b2, ia + len(a))
+                        if ib == ia + len(a):
+                            bad = ("rows:cell-values-run-together", {"cell": repr(cell)[:200], "values": [repr(a), repr(b2)]}, None)
+                        pos = ia + len(a)
+                if bad:
+                    break
+        if bad:
+            V.violation(bad[0], case, observed=bad[1], expected=bad[2], what="two chosen values of one component are printed in their cell without anything between them")
+            continue
         # no atomic statement twice: rows whose choices differ must differ in a component cell
         keyrows = [tuple(sorted((k, v) for k, v in r.items() if k not in (b"Statement ID", b"Logical Linkage (Components)", b"Logical Linkage (Statements)"))) for r in own]
         if len(set(tuple(ch) for ch in choices)) == len(choices) and len(set(keyrows)) != len(keyrows):
